@@ -116,7 +116,9 @@ class C16(Check):
                     srv.objects[key] = val
                     res = await asyncio.wait_for(t.sdo_read(index, sub), 120)
                 else:
-                    await asyncio.wait_for(t.sdo_write(val, index, sub), 120)
+                    # half of the downloads hand the value over as a bytearray (struct refuses other buffer types for the expedited form)
+                    rep = (case["seed"] >> 8) % 2
+                    await asyncio.wait_for(t.sdo_write(bytearray(val) if rep == 1 else val, index, sub), 120)
             except (EtherCatError, TypeError, struct.error, ValueError) as e:
                 res = Err(5, f"{type(e).__name__}: {e}")
             except asyncio.TimeoutError:
